@@ -378,6 +378,16 @@ def step (fields : List String) : String :=
        encStr o ++ "\t" ++ TalIO.encVars c.locals ++ "\t" ++ TalIO.encVars c.globals ++ "\t" ++ toString c.localStack.length ++ "\t" ++
          toString c.repeatStack.length ++ "\t" ++ toString c.repeatMap.length ++ "\t" ++ toString prog.length) ++ "\t" ++
       encStr dOut ++ "\t" ++ TalIO.encVars dCtx.locals ++ "\t" ++ TalIO.encVars dCtx.globals ++ "\t" ++ toString dCtx.localStack.length
+  | ["talmetal", allowPy, globals, macros, nodes] =>
+    -- macro expansion (Model/Metal) into a plain TAL tree, then the machine and the denotation on that tree
+    let t := Tal.expandTemplate (TalIO.parseMacros macros) 12 (TalIO.parseMNodes nodes)
+    let g := match TalIO.parseVal globals with | .map m => m | _ => []
+    let ctx : Tal.Ctx := { globals := g, allowPython := decBool allowPy }
+    let py : Str → Tal.Val := fun _ => .str (lit "PYTHON-ORACLE")
+    let (dOut, dCtx) := Tal.denoteList py t ctx
+    (match Tal.expand py 200000 t ctx with
+     | none => "MACHINE-STUCK"
+     | some (o, _) => encStr o) ++ "\t" ++ encStr dOut ++ "\t" ++ TalIO.encVars dCtx.locals ++ "\t" ++ toString dCtx.localStack.length
   | ["tales", allowPy, globals, locals, expr] =>
     let g := match TalIO.parseVal globals with | .map m => m | _ => []
     let l := match TalIO.parseVal locals with | .map m => m | _ => []
